@@ -12,11 +12,12 @@ def plan(tier):
     if tier == "quick":
         combos = [("spot1+fut", 0, 4), ("spot4+fut", 1, 3), ("fut+fut", 4, 3), ("etf+es", 5, 3), ("spot+spot", 1, 3), ("halfmult", 3, 4),
                   ("spot1+fut", 4, 3), ("fut+fut", 0, 3), ("etf+es", 1, 3), ("halfmult", 2, 3), ("spot4+fut", 5, 3), ("spot+spot", 3, 3)]
-        return [(u, ledger.FEES[f], d, 0.0) for u, f, d in combos] + [("spot1+fut", ledger.FEES[1], 3, 0.05), ("fut+fut", ledger.FEES[0], 3, 0.05)]
+        return [(u, ledger.FEES[f], d, 0.0) for u, f, d in combos] + [("spot1+fut", ledger.FEES[1], 3, 0.05), ("fut+fut", ledger.FEES[0], 3, 0.05), ("three", ledger.FEES[1], 3, 0.0)]
     out = []
     for u in ledger.UNIVERSES:
         for f in (ledger.FEES[0], ledger.FEES[1], ledger.FEES[4], ledger.FEES[5]):
-            out.append((u, f, 4, 0.0))
+            out.append((u, f, 4 if u != "three" else 3, 0.0))
+    out.append(("three", ledger.FEES[1], 4, 0.0))
     # a level deeper on four combinations (split by first operation)
     for u, f in (("spot1+fut", 1), ("fut+fut", 4), ("spot4+fut", 0), ("etf+es", 5)):
         out.append((u, ledger.FEES[f], 5, 0.0))
@@ -28,7 +29,7 @@ def plan(tier):
 
 def _unit(u):
     universe, fee, depth, rate, scale, deposit, first = u
-    r = ledger.bfs(universe, fee, depth, scale, deposit, ledger.alphabet(), rate=rate, first_ops=first)
+    r = ledger.bfs(universe, fee, depth, scale, deposit, ledger.alphabet(ncontracts=len(ledger.UNIVERSES[universe])), rate=rate, first_ops=first)
     r["unit"] = (universe, fee, depth, rate)
     r["split"] = first is not None
     return r
@@ -42,7 +43,7 @@ def run(tier, pid):
     for (u, f, d, rt) in plan(tier):
         if d >= (4 if tier == "quick" else 5):
             # deep units are split by first operation (each part deduplicates on its own) to use all cores
-            for op in ops:
+            for op in ledger.alphabet(ncontracts=len(ledger.UNIVERSES[u])):
                 units.append((u, f, d, rt, scale, deposit, [op]))
         else:
             units.append((u, f, d, rt, scale, deposit, None))
